@@ -260,6 +260,22 @@ example : decom (capture (List.replicate 24 0)
     [record 0 0 (packet exL234 0 0 0 0 0 (List.replicate 10 0) [exG 1 (syncWord ++ [2]), exG 3 [4, 5, 6, 7, 8]])]) =
     ([syncWord ++ [1], syncWord ++ [2], syncWord ++ [3]], some .type) := by decide +kernel
 
+/-- non-vacuity of `inferLength_exact`: a 10-byte header and two 6-byte frames, sync words at 10 and 16 -/
+example : (1 : Nat) ≤ 2 ∧ (List.replicate 10 0 ++ exF 1 2 ++ exF 3 4 : Bytes).length = 10 + 2 * 6 ∧
+    occ (List.replicate 10 0 ++ exF 1 2 ++ exF 3 4) syncWord = (List.range 2).map (fun j => 10 + 6 * j) := by decide
+
+/-- non-vacuity of `foreign_ignored`, one witness per kind of foreign traffic the property names: too short; not UDP
+    (protocol byte 6); UDP but not iNET-X (the length field does not match); well-formed iNET-X on another stream
+    (stream id 1; the last one is longer than 0x46 bytes and says UDP, so only the stream clause applies) -/
+example : Foreign (List.replicate 10 0) ∧
+    Foreign (List.replicate 23 0 ++ [6] ++ List.replicate 60 0) ∧
+    Foreign (exL234 ++ List.replicate 30 0) ∧
+    Foreign (exL234 ++ [0, 0, 0, 0, 0, 0, 0, 1, 0, 0, 0, 0, 0, 0, 0, 32] ++ List.replicate 16 0) ∧
+    ¬ ((exL234 ++ [0, 0, 0, 0, 0, 0, 0, 1, 0, 0, 0, 0, 0, 0, 0, 32] ++ List.replicate 16 0 : Bytes).length ≤ 0x46) ∧
+    (exL234 ++ [0, 0, 0, 0, 0, 0, 0, 1, 0, 0, 0, 0, 0, 0, 0, 32] ++ List.replicate 16 0 : Bytes)[0x17]? = some 17 := by
+  refine ⟨Or.inl (by decide), Or.inr (Or.inl (by decide)), Or.inr (Or.inr (Or.inl (by decide))),
+    Or.inr (Or.inr (Or.inr (by decide))), by decide, by decide⟩
+
 /-! Outside the hypotheses: no sync word in the first SAM/DEC packet → `Exception`;
     a later frame without sync → the frames before it, then `TypeError`. -/
 example : decom (capture (List.replicate 24 0)
